@@ -413,6 +413,32 @@ pub fn main(args: &Args) -> ! {
     }
     rep.part("D_send_not_writable", json!(part_d));
 
+    // ---- E. many connections shut down at once ---------------------------------------------------
+    // (more endpoint events queued than the endpoint driver handles in one poll: 170 / 330 Drained
+    // events at one instant; default schedule plus every single deviation at the choice points
+    // around the instant the close timers expire)
+    let mut part_e = vec![];
+    for sc in [Scen::S8, Scen::S8x] {
+        if sc == Scen::S8x && !thorough {
+            continue;
+        }
+        let spec = Spec::new(sc);
+        let (r1, o1) = cx.exec(&spec);
+        let (r2, _) = cx.exec(&spec);
+        if r1.trace != r2.trace {
+            report::machinery(&format!("{}: baseline is not deterministic", sc.name()));
+        }
+        let from = o1.points.saturating_sub(if thorough { 1500 } else { 120 });
+        let t = explore_schedule(&cx, &spec, o1.points + 50, from, 1, dl);
+        capped_any |= t.capped;
+        part_e.push(json!({"scenario": sc.name(), "connections": crate::scen::s8_conns(sc), "choice_points_baseline": o1.points, "deviation_window_from": from, "k": 1, "executions": t.executions, "capped": t.capped,
+            "max_timers_expiring_at_one_instant": o1.notes.get("max_timers_expiring_at_one_instant").copied()}));
+        if o1.notes.get("max_timers_expiring_at_one_instant").copied().unwrap_or(0) <= 160 {
+            report::machinery(&format!("vacuity guard: {}: never more than 160 timers (close timers of the connections) expired at one instant", sc.name()));
+        }
+    }
+    rep.part("E_many_connections_closed_at_once", json!(part_e));
+
     // ---- fold --------------------------------------------------------------------------------
     for (sc, hs) in &all_hashes {
         for h in hs {
